@@ -36,7 +36,7 @@ class HistoryProp(Prop):
             fams = os.environ["GAISIM_FAMILIES"].split(",")
         cfg = {"hazards": hz, "families": fams, "n_files": rng.randint(1, 3), "max_lines": 60,
                "human_pre_ckpt": True, "gates": self.gates(), "dirty_buffers": rng.random() < 0.2,
-               "maintenance": rng.random() < 0.2}
+               "maintenance": rng.random() < 0.2, "stage_as_you_go": rng.random() < 0.3}
         idg = gen.IdGen()
         files = gen.initial_files(rng, idg, cfg["n_files"], 10, hz)
         if not any(files.values()):
@@ -63,6 +63,8 @@ class HistoryProp(Prop):
             hz["indent"] = True
         if rng.random() < 0.2:
             hz["multibyte"] = True
+        if rng.random() < 0.12:
+            hz["twins"] = True
         return hz
 
     MAINTENANCE = [["pack-refs", "--all"], ["pack-refs", "--all"], ["gc", "-q"], ["repack", "-a", "-d", "-q"],
